@@ -20,13 +20,15 @@ import (
 	"time"
 
 	"github.com/simonvetter/modbus"
+	"verifharness/internal/sconn"
 )
 
 func init() {
-	register("C12", scnSegClient, scnSegServer, scnSegUDP)
+	register("C12", scnSegClient, scnSegServer, scnSegUDP, scnSegLate)
 	executors["ccc"] = func(in []string) string { return executors["cc"](in) }
 	executors["srvc"] = func(in []string) string { return executors["srv"](in) }
 	executors["segdiff"] = execSegdiff
+	executors["seglate"] = execSegLate
 	executors["udp"] = execUDP
 }
 
@@ -789,5 +791,59 @@ func scnSegUDP(o *Out, r *Rng, thorough bool) {
 			}
 		}
 		o.Case("segdiff", "udp 0 q "+ins[j.from], verdict)
+	}
+}
+
+// seglate: unit cut stream op... : the first call meets a silent peer and times
+// out (connection stays open); the late reply to it followed by the reply to the
+// second call then arrives as one byte stream of which the first <cut> bytes are
+// there before the second call starts and the rest once its request went out.
+//   -> result-1 result-2 left=<unread bytes>
+func execSegLate(in []string) string {
+	unit := uint8(unhx(in[0]))
+	cut := atoi(in[1])
+	stream := unhex(in[2])
+	c := sconn.New(true)
+	mc := newClientOn("m", c, unit, 1, 1)
+	r1 := callOp(mc, in[3:])
+	if cut > 0 {
+		c.Feed(stream[:cut])
+	}
+	fed := false
+	c.OnWrite = func(c *sconn.Conn, b []byte) {
+		if !fed && cut < len(stream) {
+			fed = true
+			c.Feed(stream[cut:])
+		}
+	}
+	r2 := callOp(mc, in[3:])
+	return r1 + " " + r2 + " left=" + itoa(c.Pending())
+}
+
+func scnSegLate(o *Out, r *Rng, thorough bool) {
+	n := 6
+	if thorough {
+		n = 60
+	}
+	for i := 0; i < n; i++ {
+		unit := 1 + r.Intn(247)
+		qty := 1 + r.Intn(4)
+		mk := func(txn uint16) []byte {
+			payload := []byte{byte(2 * qty)}
+			for k := 0; k < 2*qty; k++ {
+				payload = append(payload, byte(r.Intn(256)))
+			}
+			return mbapFrame(txn, 0, -1, byte(unit), 3, payload)
+		}
+		late, cur := mk(1), mk(2)
+		stream := append(append([]byte{}, late...), cur...)
+		op := []string{"ReadRegisters", hxi(r.Intn(65530)), hxi(qty), "0"}
+		// every cut of the late reply (and a few beyond it): all must give the same outcome
+		var ins []string
+		for cut := 0; cut <= len(late)+2; cut++ {
+			ins = append(ins, strings.Join(append([]string{hxi(unit), itoa(cut), hx(stream)}, op...), " "))
+		}
+		o.RunMany("seglate", ins)
+		o.Stat("seglate:cuts")
 	}
 }
